@@ -107,11 +107,39 @@ def _ext_available(name):
 
 
 class _Scope:
-    def __init__(self, kind, table, qual, implocals=()):
+    def __init__(self, kind, table, qual, implocals=(), parent=None, is_comp=False):
         self.kind, self.table, self.qual = kind, table, qual
         self.implocals = set(implocals)
         self.kids = list(table.get_children())
         self.used = [False] * len(self.kids)
+        self.parent, self.is_comp = parent, is_comp
+        # locals of this function that inner functions read (closure cells), and those reads (events that are
+        # appended to this function's own events: "the closure check at the end of the owner")
+        self.cells = _cells(table) if kind == "function" and not is_comp else set()
+        self.closure_reads = []
+
+    def reader(self):
+        """the def / lambda whose code this scope belongs to (comprehensions belong to their enclosing code)"""
+        sc = self
+        while sc is not None and (sc.is_comp or sc.kind != "function"):
+            if sc.kind in ("module", "class"):
+                return None
+            sc = sc.parent
+        return sc
+
+    def owner_of(self, name):
+        """the enclosing function whose local `name` a free variable of this scope refers to"""
+        sc = self.parent
+        while sc is not None:
+            if sc.kind == "function" and not sc.is_comp:
+                try:
+                    sym = sc.table.lookup(name)
+                    if sym.is_local():
+                        return sc
+                except KeyError:
+                    pass
+            sc = sc.parent
+        return None
 
     def inlined(self, comp_locals):
         """the same scope, with the iteration variables of an inlined comprehension hidden"""
@@ -127,6 +155,25 @@ class _Scope:
                     self.used[i] = True
                     return k
         raise KeyError((name, lineno))
+
+
+def _cells(table):
+    """locals of the function `table` that some inner scope reads as a free variable"""
+    loc = {s.get_name() for s in table.get_symbols() if s.is_local()}
+    out = set()
+
+    def walk(t, shadow):
+        for c in t.get_children():
+            if c.get_type() == "class":
+                walk(c, shadow)         # a class body does not hide the function's locals from its methods
+                continue
+            here = {s.get_name() for s in c.get_symbols() if s.is_local() and c.get_type() == "function"}
+            for s in c.get_symbols():
+                if s.is_free() and s.get_name() in loc and s.get_name() not in shadow:
+                    out.add(s.get_name())
+            walk(c, shadow | here)
+    walk(table, set())
+    return out
 
 
 def _implocals(table):
@@ -146,6 +193,8 @@ class ModuleTranslator:
         self.all_dynamic = False
         self.may = set()            # names that may be bound at module level (for the namespace upper bound)
         self.assumed = set()        # names bound on some path only of a module-level statement (assumed bound)
+        self.seen, self.deadset, self.uneval = set(), set(), set()      # translator coverage (node ids)
+        self.coverage = {}
         self.future_annotations = False
 
     # ---- helpers --------------------------------------------------------------------------------------
@@ -155,9 +204,28 @@ class ModuleTranslator:
     def LN(self, scope, name):
         """the identifier of `name` as code of `scope` means it: a local that only import statements bind is a
         name of its own ("lena (local)"), so that it can never be mistaken for the module's global `lena`"""
-        if scope.kind == "function" and name in scope.implocals and name not in getattr(scope, "comp_locals", ()):
+        if scope.kind == "function" and (name in scope.implocals or name in scope.cells) \
+                and name not in getattr(scope, "comp_locals", ()):
             return self.tr.intern(name + LOCAL_SUFFIX)
         return self.tr.intern(name)
+
+    def tracked(self, scope, name):
+        """a local of a function the resolver follows: bound only by imports, or read by inner functions"""
+        return scope.kind == "function" and (name in scope.implocals or name in scope.cells) \
+            and name not in getattr(scope, "comp_locals", ())
+
+    def free_read(self, scope, name, chain):
+        """a read of the free variable `name` (followed by the attribute chain `chain`) in an inner function:
+        checked against what the owner has certainly bound at its end"""
+        owner = scope.owner_of(name)
+        reader = scope.reader()
+        self.tr.stats["free_variable_reads"] = self.tr.stats.get("free_variable_reads", 0) + 1
+        if owner is None or reader is None or reader is owner:
+            self.tr.stats["free_variable_reads_in_comprehensions_of_the_owner"] = \
+                self.tr.stats.get("free_variable_reads_in_comprehensions_of_the_owner", 0) + 1
+            return
+        lid = self.tr.intern(name + LOCAL_SUFFIX)
+        owner.closure_reads.append(("attr", lid, [self.N(a) for a in chain]) if chain else ("load", lid))
 
     def note(self, kind, node, text=""):
         self.tr.stats[kind] = self.tr.stats.get(kind, 0) + 1
@@ -179,8 +247,8 @@ class ModuleTranslator:
             return "skip"
         if s.is_local():
             return "implocal" if name in scope.implocals else "skip"
-        if s.is_free():
-            self.tr.stats["free_variable_reads"] = self.tr.stats.get("free_variable_reads", 0) + 1
+        if s.is_free() and name != "__class__":
+            return "free"
         return "skip"
 
     # ---- expressions ------------------------------------------------------------------------------------
@@ -192,14 +260,16 @@ class ModuleTranslator:
                 self.expr(n, scope, out)
             return
         if isinstance(node, ast.Name):
+            self.seen.add(id(node))
             if isinstance(node.ctx, ast.Load):
-                if self.classify(scope, node.id) != "skip":
+                c = self.classify(scope, node.id)
+                if c == "free":
+                    self.free_read(scope, node.id, [])
+                elif c != "skip":
                     out.append(("load", self.LN(scope, node.id)))
                     self.tr.stats["loads"] += 1
-            elif scope.kind == "module" and node.id not in getattr(scope, "comp_locals", ()):
-                # walrus / stray store at module level (the variables of a comprehension do not leak)
-                out.append(("bind", self.N(node.id)))
-                self.may.add(node.id)
+            elif isinstance(node.ctx, ast.Store):
+                self.target(node, scope, out)       # walrus, comprehension targets
             return
         if isinstance(node, ast.Attribute):
             chain, base = [], node
@@ -207,10 +277,18 @@ class ModuleTranslator:
                 chain.append(base.attr)
                 base = base.value
             chain.reverse()
+            b = node
+            while isinstance(b, ast.Attribute):
+                self.seen.add(id(b))
+                b = b.value
             if isinstance(base, ast.Name) and isinstance(base.ctx, ast.Load):
+                self.seen.add(id(base))
                 if not isinstance(node.ctx, ast.Load):
                     chain = chain[:-1]          # the last attribute is written / deleted, not read
-                if self.classify(scope, base.id) != "skip":
+                c = self.classify(scope, base.id)
+                if c == "free":
+                    self.free_read(scope, base.id, chain)
+                elif c != "skip":
                     if chain:
                         out.append(("attr", self.LN(scope, base.id), [self.N(a) for a in chain]))
                         self.tr.stats["attr_chains"] += 1
@@ -224,10 +302,13 @@ class ModuleTranslator:
             a = node.args
             self.expr(a.defaults, scope, out)
             self.expr([d for d in a.kw_defaults if d is not None], scope, out)
+            self.seen.add(id(node))
             tab = scope.child("lambda", node.lineno)
-            sub = _Scope("function", tab, scope.qual + "<lambda>.", _implocals(tab))
+            sub = _Scope("function", tab, scope.qual + "<lambda>.", _implocals(tab), parent=scope)
             body = []
+            self.bind_params(a, sub, body)
             self.expr(node.body, sub, body)
+            body.extend(sub.closure_reads)
             self.add_func(scope.qual + "<lambda>", node.lineno, body)
             return
         if isinstance(node, (ast.ListComp, ast.SetComp, ast.DictComp, ast.GeneratorExp)):
@@ -235,7 +316,7 @@ class ModuleTranslator:
                   ast.GeneratorExp: "genexpr"}[type(node)]
             try:
                 tab = scope.child(nm, node.lineno)
-                sub = _Scope("function", tab, scope.qual, ())
+                sub = _Scope("function", tab, scope.qual, (), parent=scope, is_comp=True)
             except KeyError:
                 # PEP 709: the comprehension is inlined, its iteration variables live in the enclosing table
                 sub = scope.inlined({n.id for g in node.generators for n in ast.walk(g.target)
@@ -261,6 +342,7 @@ class ModuleTranslator:
                 if (isinstance(node.op, ast.Or) and sv is True) or (isinstance(node.op, ast.And) and sv is False):
                     if v is not node.values[-1]:
                         self.tr.stats["statements_in_dead_version_branches"] += 1
+                        self.dead(node.values[node.values.index(v) + 1:])
                     break
             return
         if isinstance(node, ast.IfExp):
@@ -268,8 +350,12 @@ class ModuleTranslator:
             self.expr(node.test, scope, out)
             if sv is not False:
                 self.expr(node.body, scope, out)
+            else:
+                self.dead(node.body)
             if sv is not True:
                 self.expr(node.orelse, scope, out)
+            else:
+                self.dead(node.orelse)
             return
         if isinstance(node, ast.NamedExpr):
             self.expr(node.value, scope, out)
@@ -285,11 +371,43 @@ class ModuleTranslator:
                 self.expr(child, scope, out)
 
     # ---- binding targets ----------------------------------------------------------------------------------
+    def bind_params(self, a, sub, evs):
+        """parameters that inner functions read are bound when the function starts"""
+        for arg in a.posonlyargs + a.args + a.kwonlyargs + [x for x in (a.vararg, a.kwarg) if x]:
+            if arg.arg in sub.cells:
+                evs.append(("bind", self.LN(sub, arg.arg)))
+
+    def declared_global(self, scope, name):
+        if scope.kind != "function":
+            return False
+        try:
+            return scope.table.lookup(name).is_declared_global()
+        except KeyError:
+            return False
+
     def target(self, t, scope, out):
         if isinstance(t, ast.Name):
+            self.seen.add(id(t))
+            if t.id in getattr(scope, "comp_locals", ()):
+                return                          # the variables of a comprehension do not leak
             if scope.kind == "module":
                 out.append(("bind", self.N(t.id)))
                 self.may.add(t.id)
+            elif self.declared_global(scope, t.id):
+                out.append(("gbind", self.N(t.id)))     # `global n; n = ...` inside a function
+                self.tr.stats["global_writes_in_functions"] = self.tr.stats.get("global_writes_in_functions", 0) + 1
+            elif self.tracked(scope, t.id) and not scope.is_comp:
+                out.append(("bind", self.LN(scope, t.id)))
+        elif isinstance(t, ast.Subscript) and isinstance(t.value, ast.Call) and isinstance(t.value.func, ast.Name) \
+                and t.value.func.id == "globals" and not t.value.args and scope.kind == "function":
+            # globals()[key] = ...: a literal key is a call-time binding of that global; a computed key can only add
+            # bindings to opaque objects, which never makes a resolution fail (ignoring it is the cautious reading)
+            self.expr(t.value, scope, out)
+            self.expr(t.slice, scope, out)
+            if isinstance(t.slice, ast.Constant) and isinstance(t.slice.value, str):
+                out.append(("gbind", self.N(t.slice.value)))
+            else:
+                self.note("globals_write_with_computed_key", t, "globals()[...] = ... (adds opaque bindings only)")
         elif isinstance(t, (ast.Tuple, ast.List)):
             for e in t.elts:
                 self.target(e, scope, out)
@@ -307,8 +425,7 @@ class ModuleTranslator:
         """events of a block that may or may not run"""
         if not body:
             return
-        need = force or scope.kind == "module" or any(
-            isinstance(n, (ast.Import, ast.ImportFrom)) for b in body for n in ast.walk(b))
+        need = force or self.needs_region(scope, body)
         sub = []
         self.stmts(body, scope, sub)
         if not sub:
@@ -319,6 +436,19 @@ class ModuleTranslator:
             out.append(("leave",))
         else:
             out.extend(sub)
+
+    @staticmethod
+    def needs_region(scope, body):
+        """must the effects of this block be dropped afterwards?  (module level: always; in a function: when it can
+        bind something the resolver follows -- an import, or a local that inner functions read)"""
+        return scope.kind == "module" or bool(getattr(scope, "cells", ())) or any(
+            isinstance(n, (ast.Import, ast.ImportFrom)) for b in body for n in ast.walk(b))
+
+    def dead(self, nodes):
+        """statements / expressions in a branch this interpreter never takes: counted, not translated"""
+        for b in nodes if isinstance(nodes, list) else [nodes]:
+            for n in ast.walk(b):
+                self.deadset.add(id(n))
 
     def static_test(self, test):
         """value of a test that is decided by the interpreter version alone, else None (`and` / `or` / `not`
@@ -389,6 +519,23 @@ class ModuleTranslator:
                 s |= self.must_binds(st.body)
         return s
 
+    def falls(self, body):
+        """names certainly bound when `body` runs to its end and goes on; None if it never goes on (it ends with
+        raise / return / continue / break on every path)"""
+        s = set()
+        for st in body:
+            if isinstance(st, (ast.Raise, ast.Return, ast.Continue, ast.Break)):
+                return None
+            if isinstance(st, ast.If):
+                outs = [self.falls(b) for b in (st.body, st.orelse)]
+                live = [o for o in outs if o is not None]
+                if not live:
+                    return None
+                s |= set.intersection(*live)
+            else:
+                s |= self.must_binds([st])
+        return s
+
     def may_binds(self, body):
         """names that `body` may bind at this scope level (every branch, loop bodies, handlers)"""
         s = set(self.must_binds(body))
@@ -425,6 +572,11 @@ class ModuleTranslator:
     def stmts(self, body, scope, out):
         for st in body:
             self.stmt(st, scope, out)
+            if scope.kind == "function" and not scope.is_comp and scope.closure_reads:
+                # the closure check: what the inner functions created by this statement read of this function's
+                # locals must be bound once the statement is done (the earliest moment they can be called)
+                out.extend(scope.closure_reads)
+                del scope.closure_reads[:]
 
     def funcdef(self, st, scope, out):
         self.expr(st.decorator_list, scope, out)
@@ -435,19 +587,35 @@ class ModuleTranslator:
             for arg in a.posonlyargs + a.args + a.kwonlyargs + [x for x in (a.vararg, a.kwarg) if x]:
                 self.expr(arg.annotation, scope, out)
             self.expr(st.returns, scope, out)
+        else:
+            for arg in a.posonlyargs + a.args + a.kwonlyargs + [x for x in (a.vararg, a.kwarg) if x]:
+                self.unevaluated(arg.annotation)
+            self.unevaluated(st.returns)
+        self.seen.add(id(st))
         tab = scope.child(st.name, st.lineno)
         qual = scope.qual + st.name
-        sub = _Scope("function", tab, qual + ".<locals>.", _implocals(tab))
+        sub = _Scope("function", tab, qual + ".<locals>.", _implocals(tab), parent=scope)
         evs = []
+        self.bind_params(a, sub, evs)
         self.stmts(st.body, sub, evs)
         # the line CPython records for the code object (`co_firstlineno`): the first decorator, if there is one
         self.add_func(qual, min([st.lineno] + [d.lineno for d in st.decorator_list]), evs)
-        for s in tab.get_symbols():
-            if s.is_declared_global() and s.is_assigned():
-                self.note("dynamic_global_assignment_in_function", st, f"{qual}: global {s.get_name()}")
+        self.bind_def(st.name, scope, out)
+
+    def unevaluated(self, node):
+        if node is not None:
+            for n in ast.walk(node):
+                self.uneval.add(id(n))
+
+    def bind_def(self, name, scope, out):
+        """the binding made by a `def` / `class` statement"""
         if scope.kind == "module":
-            out.append(("bind", self.N(st.name)))
-            self.may.add(st.name)
+            out.append(("bind", self.N(name)))
+            self.may.add(name)
+        elif self.declared_global(scope, name):
+            out.append(("gbind", self.N(name)))
+        elif self.tracked(scope, name):
+            out.append(("bind", self.LN(scope, name)))
 
     def stmt(self, st, scope, out):
         N = self.N
@@ -458,11 +626,9 @@ class ModuleTranslator:
             self.expr(st.bases, scope, out)
             self.expr([k.value for k in st.keywords], scope, out)
             tab = scope.child(st.name, st.lineno)
-            sub = _Scope("class", tab, scope.qual + st.name + ".")
+            sub = _Scope("class", tab, scope.qual + st.name + ".", parent=scope)
             self.stmts(st.body, sub, out)
-            if scope.kind == "module":
-                out.append(("bind", N(st.name)))
-                self.may.add(st.name)
+            self.bind_def(st.name, scope, out)
         elif isinstance(st, ast.Assign):
             self.expr(st.value, scope, out)
             for t in st.targets:
@@ -474,25 +640,29 @@ class ModuleTranslator:
         elif isinstance(st, ast.AugAssign):
             self.expr(st.value, scope, out)
             if isinstance(st.target, ast.Name):
-                if self.classify(scope, st.target.id) != "skip":
-                    out.append(("load", N(st.target.id)))
+                if self.classify(scope, st.target.id) in ("global", "implocal"):
+                    out.append(("load", self.LN(scope, st.target.id)))
                 if scope.kind == "module" and st.target.id == "__all__":
                     self.set_all(st.value, replace=False)
             self.target(st.target, scope, out)
         elif isinstance(st, ast.AnnAssign):
             if not self.future_annotations and scope.kind != "function":
                 self.expr(st.annotation, scope, out)
+            else:
+                self.unevaluated(st.annotation)
+            if st.value is None:
+                self.unevaluated(st.target)
             if st.value is not None:
                 self.expr(st.value, scope, out)
                 self.target(st.target, scope, out)
         elif isinstance(st, ast.Delete):
             for t in st.targets:
                 if isinstance(t, ast.Name):
-                    c = self.classify(scope, t.id)
-                    if scope.kind == "module" or c == "implocal":
+                    self.seen.add(id(t))
+                    if scope.kind == "module" or self.tracked(scope, t.id):
                         out.append(("unbind", self.LN(scope, t.id)))
-                    elif c == "global":
-                        self.note("dynamic_global_delete_in_function", st, t.id)
+                    elif self.declared_global(scope, t.id):
+                        out.append(("gunbind", self.N(t.id)))       # `global n; del n` inside a function
                 else:
                     self.expr(t, scope, out)
         elif isinstance(st, (ast.For, ast.AsyncFor)):
@@ -500,7 +670,7 @@ class ModuleTranslator:
             body = []
             self.target(st.target, scope, body)
             self.stmts(st.body, scope, body)
-            if self.surely_iterates(st.iter) and not any(isinstance(n, (ast.Break, ast.Continue, ast.Return, ast.Raise))
+            if scope.kind != "function" and self.surely_iterates(st.iter) and not any(isinstance(n, (ast.Break, ast.Continue, ast.Return, ast.Raise))
                                                           for b in st.body for n in ast.walk(b)):
                 out.extend(body)        # the body runs at least once, to its end: what it binds is bound
             else:
@@ -517,6 +687,7 @@ class ModuleTranslator:
             if v is not None:
                 self.tr.stats["static_version_tests"] += 1
                 dead = st.orelse if v else st.body
+                self.dead(dead)
                 self.tr.stats["statements_in_dead_version_branches"] += sum(1 for b in dead for _ in ast.walk(b)
                                                                             if isinstance(_, ast.stmt))
                 # the test itself is executed
@@ -528,6 +699,13 @@ class ModuleTranslator:
                 self.region(st.orelse, scope, out)
                 must = (self.must_binds(st.body) & self.must_binds(st.orelse)) if st.orelse else set()
                 self.assume(self.may_binds([st]), must, scope, out)
+                if scope.kind == "function" and not scope.is_comp and scope.cells:
+                    # locals that inner functions read: bound after the statement if every branch that goes on binds them
+                    outs = [self.falls(b) for b in (st.body, st.orelse)]
+                    live = [o for o in outs if o is not None]
+                    if live:
+                        for n in sorted(set.intersection(*live) & scope.cells):
+                            out.append(("bind", self.LN(scope, n)))
         elif isinstance(st, (ast.With, ast.AsyncWith)):
             for it in st.items:
                 self.expr(it.context_expr, scope, out)
@@ -537,9 +715,11 @@ class ModuleTranslator:
         elif isinstance(st, (ast.Try, getattr(ast, "TryStar", ast.Try))):
             self.try_(st, scope, out)
         elif isinstance(st, ast.Import):
+            self.seen.add(id(st))
             for a in st.names:
                 self.import_(a, st, scope, out)
         elif isinstance(st, ast.ImportFrom):
+            self.seen.add(id(st))
             self.import_from(st, scope, out)
         elif isinstance(st, (ast.Global, ast.Nonlocal, ast.Pass, ast.Break, ast.Continue)):
             pass
@@ -547,6 +727,11 @@ class ModuleTranslator:
             self.expr(st.subject, scope, out)
             for c in st.cases:
                 sub = []
+                for pn in ast.walk(c.pattern):      # value patterns and class patterns evaluate expressions
+                    if isinstance(pn, ast.MatchValue):
+                        self.expr(pn.value, scope, sub)
+                    elif isinstance(pn, ast.MatchClass):
+                        self.expr(pn.cls, scope, sub)
                 self.expr(c.guard, scope, sub)
                 self.stmts(c.body, scope, sub)
                 self._emit_region(sub, c.body, scope, out)
@@ -558,9 +743,7 @@ class ModuleTranslator:
     def _emit_region(self, evs, body, scope, out):
         if not evs:
             return
-        need = scope.kind == "module" or any(isinstance(n, (ast.Import, ast.ImportFrom))
-                                             for b in body for n in ast.walk(b))
-        if need:
+        if self.needs_region(scope, body):
             out.append(("enter",))
             out.extend(evs)
             out.append(("leave",))
@@ -596,11 +779,12 @@ class ModuleTranslator:
     def handler(self, h, scope, out, inline):
         evs = []
         self.expr(h.type, scope, evs)
-        if h.name and scope.kind == "module":
-            evs.append(("bind", self.N(h.name)))
+        track = h.name and (scope.kind == "module" or self.tracked(scope, h.name))
+        if track:
+            evs.append(("bind", self.LN(scope, h.name)))
         self.stmts(h.body, scope, evs)
-        if h.name and scope.kind == "module":
-            evs.append(("unbind", self.N(h.name)))
+        if track:
+            evs.append(("unbind", self.LN(scope, h.name)))
         if inline:
             out.extend(evs)
         else:
@@ -615,8 +799,8 @@ class ModuleTranslator:
         else:
             try:
                 s = scope.table.lookup(name)
-                if s.is_global():
-                    self.note("dynamic_global_import_in_function", None, name)
+                if s.is_declared_global():
+                    out.append(("gbind", self.N(name)))
                     return
             except KeyError:
                 pass
@@ -724,8 +908,26 @@ class ModuleTranslator:
         for n in IMPLICIT + (["__path__"] if self.is_pkg else []):
             evs.append(("bind", self.N(n)))
         self.stmts(tree.body, scope, evs)
+        kinds = {"names": ast.Name, "attributes": ast.Attribute, "imports": (ast.Import, ast.ImportFrom),
+                 "functions": (ast.FunctionDef, ast.AsyncFunctionDef, ast.Lambda)}
+        cov = {k: {"source": 0, "translated": 0, "dead_version_branch": 0, "unevaluated_annotation": 0, "missed": []}
+               for k in kinds}
         for node in ast.walk(tree):
-            if isinstance(node, ast.Call) and isinstance(node.func, ast.Name) and node.func.id in ("globals", "vars", "locals") \
+            for k, cls in kinds.items():
+                if isinstance(node, cls):
+                    c = cov[k]
+                    c["source"] += 1
+                    if id(node) in self.deadset:
+                        c["dead_version_branch"] += 1
+                    elif id(node) in self.uneval:
+                        c["unevaluated_annotation"] += 1
+                    elif id(node) in self.seen:
+                        c["translated"] += 1
+                    else:
+                        c["missed"].append(f"{self.modname}:{getattr(node, 'lineno', 0)}:{ast.unparse(node)[:40]}")
+        self.coverage = cov
+        for node in ast.walk(tree):
+            if isinstance(node, ast.Call) and isinstance(node.func, ast.Name) and node.func.id in ("vars", "locals") \
                     and not node.args:
                 self.note("dynamic_namespace_access", node, node.func.id + "()")
             if isinstance(node, ast.Call) and isinstance(node.func, ast.Name) and node.func.id in ("exec", "eval", "__import__"):
@@ -789,6 +991,7 @@ class Translator:
             mods.append({"name": m, "is_pkg": is_pkg, "parent": self.modid.get(parent) if parent else None,
                          "short": m.rpartition(".")[2], "all": mt.all, "all_dynamic": mt.all_dynamic,
                          "evs": evs, "funcs": mt.funcs, "main": False, "may": sorted(mt.may), "assumed": sorted(mt.assumed),
+                         "coverage": mt.coverage,
                          "path": str(path.relative_to(self.repo))})
         lena_id = self.modid["lena"]
         for m in subpkgs:
@@ -829,6 +1032,7 @@ class Translator:
                 envs.append(e)
         return {"repo": str(self.repo), "source_hash": hasher.hexdigest(), "names": self.intern.names,
                 "n_bindable": self.n_bindable, "ext": list(self.ext), "envs": envs, "venv_env": venv_env,
+                "slot_bits": (len(mods) + 2).bit_length(),
                 "always_absent": [x for x in self.ext if x in PY2_ONLY],
                 "n_builtins": n_builtins, "modules": mods, "entries": entries, "private": priv,
                 "subpackages": subpkgs, "stats": self.stats, "notes": self.notes,
@@ -843,7 +1047,7 @@ def _bindable(mods):
         out.update(m["all_ids"] or [])
         for evs in [m["evs"]] + [f["evs"] for f in m["funcs"]]:
             for e in evs:
-                if e[0] in ("bind", "bindMod", "unbind"):
+                if e[0] in ("bind", "bindMod", "unbind", "gbind", "gunbind"):
                     out.add(e[1])
                 elif e[0] == "from":
                     out.add(e[2])
@@ -863,7 +1067,7 @@ def _renumber(self, mods, n_builtins):
 
     def ev(e):
         k = e[0]
-        if k in ("bind", "unbind", "load", "nomodule"):
+        if k in ("bind", "unbind", "load", "nomodule", "gbind", "gunbind"):
             return (k, new_of[e[1]])
         if k == "bindMod":
             return (k, new_of[e[1]], e[2])
@@ -918,6 +1122,8 @@ def _ev(e):
         return f".ext {e[1]}"
     if k in ("tryBegin", "tryExcept", "tryEnd"):
         return "." + k
+    if k in ("gbind", "gunbind"):
+        return f".{k} {e[1]}"
     raise ValueError(e)
 
 
@@ -980,7 +1186,7 @@ def render_lean(facts):
     L.append(f"  nBuiltins := {facts['n_builtins']}")
     L.append(f"  priv := [{', '.join(map(str, facts['private']))}]")
     L.append(f"  nNames := {facts['n_bindable']}")
-    L.append(f"  slotBits := {(len(facts['modules']) + 2).bit_length()}")
+    L.append(f"  slotBits := {facts['slot_bits']}")
     L.append(f"  absent := {facts['venv_env']}    -- as installed here")
     L.append(f"  envs := [{', '.join(map(str, facts['envs']))}]")
     L.append("")
